@@ -356,6 +356,9 @@ impl PropertySet {
         for encoded in encoded_values.iter() {
             writer.write_all(encoded)?;
         }
+        // Make sure buffered bytes reach the medium (and any error is seen)
+        // before reporting success; dropping the stream would swallow it.
+        writer.flush()?;
         Ok(())
     }
 
